@@ -18,7 +18,7 @@ SPEC = {
         Job("lottery", "core/ceremony", "^TestVerifC16Lottery$", shards=(8, 16), timeout=(600, 3000)),
     ],
     "parallel": 16,
-    # all floors are functions of the generated inputs (seed, tier), not of the lottery's behaviour
+    # floors count generated input classes (functions of seed and tier), not branches taken by the lottery
     "floors": {
         "path_few_authors": (3000, 30000),
         "path_single_flip": (200, 1000),
